@@ -1,7 +1,7 @@
 -------------------------- MODULE RepartitionTrace --------------------------
 (* Binding B2 for C10: executions of the real RepartitionExec recorded by   *)
 (* the harness are validated event by event.  One NDJSON line per run:      *)
-(*   scheme ("hash"|"rr"|"range"), n, nin, po, splits, desc, nf,            *)
+(*   scheme ("hash"|"rr"|"range"), n, nin, po, rrstart, splits, desc, nf,   *)
 (*   rows: every row the inputs can produce: [id, i (input), bk (0-based    *)
 (*         index of its non-empty batch), h (hash limbs measured with the   *)
 (*         public create_hashes and the repartition seed), key, s (sort key)]*)
@@ -27,7 +27,7 @@ Outs == 1..R.n
 \* the output (1-based) the documented routing function selects for a row
 Part(row) ==
   1 + CASE R.scheme = "hash" -> HashPart(row.h, R.n)
-        [] R.scheme = "rr" -> RRPart(row.i, R.nin, R.n, row.bk, R.po)
+        [] R.scheme = "rr" -> RRPartFrom(R.rrstart[row.i], R.n, row.bk)   \* one start per input, as observed
         [] OTHER -> RangePart(row.key, R.splits, R.desc, R.nf)
 
 Init ==
